@@ -151,7 +151,7 @@ def cfg_name(c):
 class C18(Prop):
   id = "C18"
   quick_examples = 300
-  thorough_examples = 6000
+  thorough_examples = 1500
   rule = ("Hypothesis-generated chart x start state x event list, each executed under %d "
           "configurations: {no decorator, the spy decorator on every state, on the even-numbered or on the odd-numbered states only, some other functools.wraps decorator} x "
           "{plain, instrumented, queued with instrumentation on/off} x {live spy} x {live trace} x "
